@@ -377,3 +377,24 @@ package federation
 //@ call queue.add#1 assert [C17] event != nil && event.Event.(type *Event_Unsubscribe) && event.Event.(*Event_Unsubscribe) != nil && event.Event.(*Event_Unsubscribe).Unsubscribe != nil && event.Event.(*Event_Unsubscribe).Unsubscribe.TopicName == topicName && topicName == unsubs[rangeindex]
 //@ ensures [C17] $preCalls == old($preCalls) + 1 && !has(f.localSubStore.index, clientID)
 //@ ensures [C17] forall n string :: has(f.peers, n) ==> f.peers[n].queue.$qadds == old(f.peers[n].queue.$qadds) + len(unsubs)
+
+// OnMsgArrived wrapper: the hooks of the plugins before this one decide first; a message they reject is not forwarded to
+// any peer; otherwise the message as they left it (possibly rewritten) is what sendMessage is given, once; a message they
+// dropped (nil) is not forwarded.
+//@ func type server.OnMsgArrived
+//@ params ctx, client, req
+//@ modifies heap, $preCalls
+//@ preserves all(Federation.*), all(peer.*), all(localSubStore.*), all(fedSubStore.*), allmaps(string, *peer), allmaps(string, uint64), allmaps(string, struct{}), allmaps(string, map[string]struct{}), allcells(*Federation)
+//@ ensures $preCalls == old($preCalls) + 1
+//@ func (*server.MsgArrivedRequest).Drop trusted
+//@ params r
+//@ modifies r.Message
+
+//@ func (*Federation).OnMsgArrivedWrapper$1
+//@ props C17
+//@ requires [C17] f != nil && pre != nil && req != nil
+//@ modifies heap, $preCalls, ghostall(queue.$qadds), ghostall(queue.$lastEv)
+//@ waive requires
+//@ call Federation.sendMessage#1 assert [C17] $arg0 == f && msg == req.Message && msg != nil && err == nil && $preCalls == old($preCalls) + 1
+//@ ensures [C17] result != nil ==> called(Federation.sendMessage#1) == 0
+//@ ensures [C17] called(Federation.sendMessage#1) <= 1
